@@ -28,3 +28,12 @@ Theorem C18_product :
                      (ltk_srv_value H ed_pk lt) lt (fst ok) (snd ok) (d_clk e) 0 (d_queue e))) evs.
 Proof. exact product. Qed.
 Print Assumptions C18_product.
+
+(* ---- tie to the source: the integer literals of the functions this property's model stands for
+   (private constants, bounds, unit factors; the files are SiteMap.files_C18) are today the ones the
+   model was written against. Gen/Sites.v num_literals is regenerated from /repo on every run; a
+   changed, added or removed number in a modelled function breaks this obligation ---- *)
+Require RV.Gen.Sites RV.Model.SiteMap.
+Theorem C18_literals_reviewed : RV.Model.SiteMap.literals_ok RV.Model.SiteMap.files_C18.
+Proof. repeat constructor. Qed.
+Print Assumptions C18_literals_reviewed.
